@@ -4,6 +4,7 @@ import (
 	"context"
 	"errors"
 	"fmt"
+	"github.com/fullstorydev/grpchan"
 	tpb "github.com/fullstorydev/grpchan/grpchantesting"
 	"github.com/fullstorydev/grpchan/httpgrpc"
 	"github.com/fullstorydev/grpchan/inprocgrpc"
@@ -243,6 +244,24 @@ func runC13Cell(e *core.Env, r *rand.Rand, c *Carrier, scheme string, secure boo
 	// the channel uses the carrier's own *http.Transport (no wrapper: what kind of transport it is may matter);
 	// requests are counted where they arrive
 	cc := c.CC
+	if w := r.Intn(6); w < 3 {
+		// applications often put client interceptors of one kind only on a channel (tracing for unary calls,
+		// say): credentials and peer targets are call options and travel through such a wrapper unchanged
+		var u grpc.UnaryClientInterceptor
+		var s grpc.StreamClientInterceptor
+		if w != 1 {
+			u = func(ctx context.Context, m string, req, reply interface{}, c *grpc.ClientConn, inv grpc.UnaryInvoker, opts ...grpc.CallOption) error {
+				return inv(ctx, m, req, reply, c, opts...)
+			}
+		}
+		if w != 0 {
+			s = func(ctx context.Context, d *grpc.StreamDesc, c *grpc.ClientConn, m string, st grpc.Streamer, opts ...grpc.CallOption) (grpc.ClientStream, error) {
+				return st(ctx, d, c, m, opts...)
+			}
+		}
+		cc = grpchan.InterceptClientConn(cc, u, s)
+		cell += fmt.Sprintf("|client-interceptors=%d", w)
+	}
 	var reqBefore int64
 	if c.HTTP {
 		reqBefore = c.ReqCount.Load()
